@@ -10,6 +10,7 @@ import (
 	"time"
 
 	"verif/internal/hx"
+	"verif/internal/ref"
 	"verif/internal/tlc"
 )
 
@@ -162,10 +163,23 @@ func C08(c *hx.Ctx) {
 	var mu sync.Mutex
 	var tr bytes.Buffer
 	traced := 0
+	ops := &opsBatch{} // operation-level traces of what the real writer emitted, for TraceLzma
 	parallel(len(jobs), func(i int) {
 		j := jobs[i]
 		var local bytes.Buffer
 		res := runW2(c, "C08", j.g, j.h.Hist, j.h.Expect, j.s, &local)
+		if n := len(res.Written); n > 0 && n <= 20000 && len(res.Sink) > 0 {
+			// every operation the encoder chose must be enabled in Lzma.tla with the window bounded
+			// by the configured dictionary capacity, and must reproduce the written bytes
+			rr := ref.DecodeLZMA2(res.Sink, ref.L2Opts{DictSize: int64(j.g.DictCap), WantOps: true})
+			if rr.Err == nil && rr.Ended && bytes.Equal(rr.Out, res.Written) {
+				mu.Lock()
+				if ops.lines < c.Pick(120000, 600000) {
+					ops.addL2(fmt.Sprintf("w2 job %d cfg %s hist %v", i, j.g.String(), j.h.Hist), int64(j.g.DictCap), rr)
+				}
+				mu.Unlock()
+			}
+		}
 		nt := int64(0)
 		if res.NonTriv {
 			nt = 1
@@ -182,4 +196,12 @@ func C08(c *hx.Ctx) {
 		}
 	})
 	validateW2Traces(c, tr.Bytes(), traced)
+	if tag, line, ok := ops.validate(c); ok && tag != "" {
+		if c.Violations() == 0 {
+			c.Inconclusive("TLC (TraceLzma) rejects the operations of a stream the real writer emitted and the reference decoder accepted, at line %d: %s", line, tag)
+		} else {
+			c.Logf("TraceLzma rejects an emitted stream at line %d (%s), consistent with the reported violations", line, tag)
+		}
+	}
+	c.Extra["op_traces_validated"] = ops.cases
 }
